@@ -12,10 +12,10 @@ Tdim(c) == CASE c = "interval" -> 1 [] c \in {"triangle", "quadrilateral"} -> 2 
 
 \* element kinds (argument / coefficient spaces)
 Elems == {"P1", "P2", "P3", "DG0", "DG1", "vP1", "vP2", "symP1", "TH", "RT1", "N1", "BDM1", "RTxDG0",
-          "bubble", "real", "quad"}
+          "bubble", "real", "quad", "RTCF1", "RTCE1"}
 Scalar(e) == e \in {"P1", "P2", "P3", "DG0", "DG1", "bubble", "real", "quad"}
-Piola(e) == e \in {"RT1", "N1", "BDM1", "RTxDG0"}
-Deg(e) == CASE e \in {"P1", "DG1", "vP1", "symP1", "RT1", "N1", "BDM1", "RTxDG0"} -> 1
+Piola(e) == e \in {"RT1", "N1", "BDM1", "RTxDG0", "RTCF1", "RTCE1"}
+Deg(e) == CASE e \in {"P1", "DG1", "vP1", "symP1", "RT1", "N1", "BDM1", "RTxDG0", "RTCF1", "RTCE1"} -> 1
             [] e \in {"P2", "vP2", "TH"} -> 2 [] e = "P3" -> 3 [] e = "bubble" -> 3 [] e = "quad" -> 2 [] OTHER -> 0
 
 \* integrand shapes; rank is implied
@@ -44,6 +44,8 @@ IntegrandDeg(c) ==
 Valid(c) ==
   \* element / cell compatibility
   /\ (c.elem \in {"RT1", "N1", "BDM1", "RTxDG0", "TH", "bubble"} => c.cell \in {"triangle", "tetrahedron"})
+  /\ (c.elem \in {"RTCF1", "RTCE1"} => c.cell = "quadrilateral" /\ c.term \in {"mass", "coefmass", "load", "energy", "divdiv", "curlcurl", "xmass"}
+                                        /\ (c.elem = "RTCF1" => c.term # "curlcurl") /\ (c.elem = "RTCE1" => c.term # "divdiv"))
   /\ (c.elem = "symP1" => Tdim(c.cell) >= 2)
   /\ (c.elem = "P3" => c.cell \in {"interval", "triangle"})
   /\ (c.elem = "quad" => c.cell = "triangle" /\ c.rule = "exact" /\ c.term \in {"mass", "coefmass", "load"})
@@ -54,16 +56,16 @@ Valid(c) ==
   \* transcendental functions of coefficients / constants / x: libm on exact arguments (never an exact rule)
   /\ (c.term \in {"mathfn", "mathfn2", "cmathfn", "bessel"} => c.elem \in {"P1", "P2", "DG1", "DG0"} /\ c.rule # "exact")
   /\ (c.term \in {"stiff", "cten", "gradload"} => ~Piola(c.elem) /\ c.elem \notin {"DG0", "real", "quad"})
-  /\ (c.term = "divdiv" => c.elem \in {"vP1", "vP2", "RT1", "BDM1"})
-  /\ (c.term = "curlcurl" => c.elem = "N1" \/ (c.elem \in {"vP1", "vP2"} /\ Tdim(c.cell) = 3))
+  /\ (c.term = "divdiv" => c.elem \in {"vP1", "vP2", "RT1", "BDM1", "RTCF1"})
+  /\ (c.term = "curlcurl" => c.elem \in {"N1", "RTCE1"} \/ (c.elem \in {"vP1", "vP2"} /\ Tdim(c.cell) = 3))
   /\ (c.term = "mixeddiv" <=> c.elem \in {"RTxDG0", "TH"})
-  /\ (c.term = "hess" => c.elem \in {"P2", "P3"} /\ c.geom = "affine" /\ c.xdeg = 1)
+  /\ (c.term = "hess" => c.elem \in {"P2", "P3"} /\ c.geom # "manifold")
   /\ (c.term = "tworules" => c.rule = "custom")
   /\ (c.term = "xint" => c.elem = "P1")
   \* geometry: non-affine needs a coordinate element that can bend; Piola derivatives only on affine cells
   /\ (c.geom = "nonaffine" => (c.xdeg = 2 \/ ~Simplex(c.cell)))
   /\ (c.geom = "manifold" => c.cell \in {"interval", "triangle", "quadrilateral"} /\ ~Piola(c.elem) /\ c.xdeg = 1)
-  /\ (Piola(c.elem) /\ NDeriv(c.term) > 0 => c.geom = "affine")
+  \* (derivatives of Piola-mapped fields and Hessians on non-affine cells use the geometry's second derivatives)
   /\ (c.xdeg = 2 => c.cell \in {"interval", "triangle", "quadrilateral"})
   \* the exact rule is only an oracle for polynomial integrands on affine cells, and only while
   \* its rationals stay inside 32 bits (degree bound found by experiment)
